@@ -38,6 +38,36 @@ pub fn sq(v: u64) -> i64 {
 pub fn inq(v: u64) -> u64 {
     v.saturating_mul(scale())
 }
+/// PRICE SCALE ("pscale": P): the same for every price (the level's, the orders' own price fields, the prices of
+/// move / replace requests, transaction prices); an executed VALUE is quantity x price and scales by K * P.
+pub static PSCALE: std::sync::atomic::AtomicU64 = std::sync::atomic::AtomicU64::new(1);
+pub fn pscale() -> u64 {
+    PSCALE.load(std::sync::atomic::Ordering::Relaxed)
+}
+pub fn inp(v: u64) -> u64 {
+    v.saturating_mul(pscale())
+}
+pub fn pq(v: u64) -> i64 {
+    let k = pscale();
+    if k == 1 {
+        sint(v)
+    } else if v % k == 0 {
+        sint(v / k)
+    } else {
+        -CLAMP + 13
+    }
+}
+/// executed value out of the library
+pub fn vq(v: u64) -> i64 {
+    let k = (scale() as u128) * (pscale() as u128);
+    if k == 1 {
+        sint(v)
+    } else if (v as u128) % k == 0 {
+        sint(((v as u128) / k) as u64)
+    } else {
+        -CLAMP + 15
+    }
+}
 pub fn sint_usize(v: usize) -> i64 {
     sint(v as u64)
 }
@@ -123,7 +153,7 @@ fn u(v: &Value, k: &str) -> u64 {
 /// timestamp, side nor price, rendered canonically: "<tif>[|a|b]".
 pub fn order_of(v: &Value) -> OrderType<()> {
     let id = oid_of(u(v, "id"));
-    let price = v.get("px").and_then(|x| x.as_u64()).unwrap_or(100);
+    let price = inp(v.get("px").and_then(|x| x.as_u64()).unwrap_or(100));
     let side = side_of(v.get("side").and_then(|x| x.as_str()).unwrap_or("Buy"));
     let timestamp = ts_in(u(v, "ts"));
     let par = v.get("par").and_then(|x| x.as_str()).unwrap_or("GTC");
@@ -211,7 +241,7 @@ pub fn order_json(o: &OrderType<()>) -> Value {
     };
     json!({"id": id_num(&o.id()), "kind": kind, "vis": sq(o.visible_quantity()), "hid": sq(o.hidden_quantity()),
            "thr": thr, "amt": amt, "auto": auto, "ts": ts_out(o.timestamp()), "side": side_str(o.side()),
-           "px": sint(o.price()), "par": par})
+           "px": pq(o.price()), "par": par})
 }
 
 pub fn no_order() -> Value {
@@ -284,7 +314,7 @@ pub fn state_json(l: &PriceLevel, gen: Option<&UuidGenerator>, api: bool) -> Val
         "orders": map_json(l), "tickets": tickets_json(l),
         "st": {"added": sint_usize(s.orders_added.peek()), "removed": sint_usize(s.orders_removed.peek()),
                "exec": sint_usize(s.orders_executed.peek()), "qty": sq(s.quantity_executed.peek()),
-               "val": sq(s.value_executed.peek())},
+               "val": vq(s.value_executed.peek())},
         "gen": gen.map(|g| sint(g.verif_counter().0)).unwrap_or(0),
     });
     if api {
@@ -292,10 +322,10 @@ pub fn state_json(l: &PriceLevel, gen: Option<&UuidGenerator>, api: bool) -> Val
         // the library's own total_quantity() (a panic in it is a wrapped / impossible total)
         let tot = std::panic::catch_unwind(std::panic::AssertUnwindSafe(|| l.total_quantity())).map(sq).unwrap_or(-CLAMP + 9);
         st["api"] = json!({"vis": sq(l.visible_quantity()), "hid": sq(l.hidden_quantity()),
-                           "cnt": sint_usize(l.order_count()), "tot": tot, "price": sint(l.price()),
+                           "cnt": sint_usize(l.order_count()), "tot": tot, "price": pq(l.price()),
                            "list": listing,
                            "sadded": sint_usize(s.orders_added()), "sremoved": sint_usize(s.orders_removed()),
-                           "sqty": sq(s.quantity_executed()), "sval": sq(s.value_executed())});
+                           "sqty": sq(s.quantity_executed()), "sval": vq(s.value_executed())});
     }
     st
 }
